@@ -64,15 +64,38 @@ class Series18(SArr):
         return models.method_of(eng, self, name)
 
 
+class _Loc18(npmodels.DLoc):
+    def __pyvc_setitem__(self, eng, key, val):
+        if isinstance(key, tuple) and len(key) == 2 and isinstance(key[1], str):
+            self.df.check_column_frame(eng, key[1])
+        return npmodels.DLoc.__pyvc_setitem__(self, eng, key, val)
+
+
 class DFrame(npmodels.DFrame):
-    """the stock frame model (same class name: the engine recognises frames by it) plus boolean row selection and to_numpy"""
+    """the stock frame model (same class name: the engine recognises frames by it) plus boolean row selection and to_numpy.
+    `frozen_cols`: columns of an input frame that the carrier must not write (a store into one of them, through df[col] = ... or
+    df.loc[.., col] = ..., is a failed `frame-write` obligation, like a store into a frozen input)"""
+
+    frozen_cols = frozenset()
 
     def __pyvc_snapshot__(self, memo):
         from .values import snapshot
 
         c = DFrame({k: snapshot(v, memo) for k, v in self.cols.items()}, self.n)
         c.uid = self.uid
+        c.frozen_cols = self.frozen_cols
         return c
+
+    def check_column_frame(self, eng, col):
+        if col in self.frozen_cols and not eng.spec_mode:
+            mark = len(eng.pc)
+            eng.prove(eng.site("frame-write"), False, "frame", f"write to column {col!r} of the input frame (only {sorted(set(self.cols) - set(self.frozen_cols))} may be written)")
+            del eng.pc[mark:]  # the failed claim is NOT assumed: the obligations that follow are proved in the state the store really produces
+
+    def __pyvc_setitem__(self, eng, key, val):
+        if isinstance(key, str):
+            self.check_column_frame(eng, key)
+        return npmodels.DFrame.__pyvc_setitem__(self, eng, key, val)
 
     def __pyvc_getitem__(self, eng, key):
         if isinstance(key, str):
@@ -92,10 +115,14 @@ class DFrame(npmodels.DFrame):
             for k in key.items:
                 if k not in self.cols:
                     raise ProgExc(KeyError, str(k))
+            if len(set(key.items)) != len(key.items):
+                raise Unsupported("column selection with a repeated label (pandas keeps both copies; the model's columns are keyed by label)")
             return DFrame({k: self.cols[k] for k in key.items}, self.n)
         return npmodels.DFrame.__pyvc_getitem__(self, eng, key)
 
     def __pyvc_getattr__(self, eng, name):
+        if name in ("loc", "iloc", "at"):
+            return _Loc18(self)
         if name == "to_numpy":
             eng.assumptions.add(PANDAS)
             return NativeMethod(lambda e, r, a, k: npmodels.stack_sarr(e, [SArr(c.arr, r.n, c.kind) for c in r.cols.values()], 1), self, name)
@@ -136,6 +163,8 @@ class Row18:
         if isinstance(key, str):
             return self.cols[key].get(self.pos)
         if isinstance(key, models.PList) and key.items is not None:
+            if len(set(key.items)) != len(key.items):
+                raise Unsupported("row selection with a repeated label")
             return RowVec18({k: self.cols[k].get(self.pos) for k in key.items})
         raise Unsupported("row subscript")
 
@@ -196,6 +225,7 @@ def np_norm(eng, args, kwargs):
         i = z3.Int(fresh_name("ni"))
         sq = sum((to_z3(Sym(z3.Select(c, i), M.kind), "real") * to_z3(Sym(z3.Select(c, i), M.kind), "real") for c in M.cols), z3.RealVal(0))
         eng.assume(z3.ForAll([i], z3.Implies(z3.And(i >= 0, i < M.nz()), z3.And(out.get(i).z >= 0, out.get(i).z * out.get(i).z == sq)), patterns=[out.get(i).z]))
+        out.norm_of = M  # ghost: the matrix whose row lengths these are (contracts name the components through it)
         return out
     prev = _PREV.get(np.linalg.norm)
     if prev is None:
